@@ -282,4 +282,50 @@ theorem solve_history_irrelevant (lags leads : Nat) (start stop : Option Loc) (u
             | error r => exact ⟨rfl, rfl⟩
             | ok e => exact solveList_history_irrelevant I o n _ u st st' it it' [] []
 
+/-! ### Non-vacuity (review): every hypothesis-carrying theorem instantiated on `exI` (4 periods; period 2 fails) -/
+
+private def exW : World Nat := ⟨0, List.replicate 4 .unsolved, List.replicate 4 (-1)⟩
+private theorem exAll : AllReturn exI { maxIter := 3, failRaise := false } 4 [1, 2, 3] exW := by
+  simp [AllReturn]; decide
+private theorem exAll1 : AllReturn exI { maxIter := 3 } 4 [1] exW := by
+  simp [AllReturn]; decide
+
+/-- `defaults_agree` is not vacuous: the reflected table has seven entries (so `head!` is a real entry). -/
+example : Generated.solveDefaults.length = 7 := by decide
+
+/-- `periodRange_reversed` at the reversed pair (3, 1). -/
+example : periodRange 3 1 = [] := periodRange_reversed 3 1 (by decide)
+
+/-- `solveList_eq_seq` over periods 1, 2, 3 under `failures='ignore'` (period 2 fails, nothing raises). -/
+example : solveList exI { maxIter := 3, failRaise := false } 4 [1, 2, 3] exW [] [] =
+    (seqWorld exI { maxIter := 3, failRaise := false } 4 [1, 2, 3] exW,
+     .ok ([].reverse ++ [1, 2, 3]) ([].reverse ++ seqFlags exI { maxIter := 3, failRaise := false } 4 [1, 2, 3] exW)) :=
+  solveList_eq_seq exI _ 4 [1, 2, 3] exW [] [] exAll
+example : seqFlags exI { maxIter := 3, failRaise := false } 4 [1, 2, 3] exW = [true, false, true] := by decide
+
+/-- `solve_failure_containment`: period 1 completes, period 2 raises NonConvergenceError, period 3 never runs. -/
+example : solveList exI { maxIter := 3 } 4 ([1] ++ 2 :: [3]) exW [] [] =
+    ((solveT exI { maxIter := 3 } 4 (2 : Nat) (seqWorld exI { maxIter := 3 } 4 [1] exW)).1,
+     .err .nonConvergence [1] (seqFlags exI { maxIter := 3 } 4 [1] exW)) :=
+  solve_failure_containment exI { maxIter := 3 } 4 [1] [3] 2 exW exAll1 .nonConvergence (by decide)
+    (fun b h => nomatch h)
+
+/-- `later_periods_untouched`: after periods 1 and 2, entry 3 of `status` / `iterations` is as before. -/
+example : (seqWorld exI { maxIter := 3, failRaise := false } 4 [1, 2] exW).status[3]? = exW.status[3]? ∧
+    (seqWorld exI { maxIter := 3, failRaise := false } 4 [1, 2] exW).iters[3]? = exW.iters[3]? :=
+  later_periods_untouched exI _ 4 [1, 2] exW 3 (by decide) (by decide) (by decide)
+
+/-- The entry checks of `solve()`. -/
+example : solve exI { minIter := 9, maxIter := 3 } 4 1 0 none none exW = (exW, .err .valueError [] []) :=
+  solve_min_gt_max exI _ 4 1 0 none none exW (by decide)
+example : solve exI {} 4 1 0 (some (.pos 1)) (some .missing) exW = (exW, .keyError) :=
+  solve_bad_label exI _ 4 1 0 _ _ exW (by decide) (Or.inr (Or.inr (Or.inr rfl)))
+example : solve exI {} 0 1 0 none none exW = (exW, .emptySpan) := solve_empty_span exI _ 1 0 exW (by decide)
+example : solve exI { maxIter := 3 } 4 1 0 (some (.pos 1)) (some (.pos 2)) exW =
+    solveList exI { maxIter := 3 } 4 (periodRange 1 2) exW [] [] :=
+  solve_explicit exI _ 4 1 0 1 2 exW (by decide) (by decide)
+example : solve exI { maxIter := 3 } 4 1 0 none none exW =
+    solveList exI { maxIter := 3 } 4 (periodRange 1 (4 - 1 - 0)) exW [] [] :=
+  solve_default_range exI _ 4 1 0 exW (by decide) (by decide) (by decide)
+
 end Fsic.C05
